@@ -194,6 +194,17 @@ pub fn run(path: &str) -> i32 {
                 bytes::c03_sub::<V5>(&ctx, &b, hd)
             }
         }
+        "history" | "encode-history" => {
+            // history dependence needs the history: re-run the whole leg
+            let p: &'static str = match prop.as_str() { "C01" => "C01", "C03" => "C03", "C08" => "C08", "C09" => "C09", _ => "C11" };
+            if kind == "history" {
+                if v3 { crate::checks::history::decode_history::<V3>(&ctx, p) } else { crate::checks::history::decode_history::<V5>(&ctx, p) }
+            } else if v3 {
+                crate::checks::history::encode_history::<V3>(&ctx, p)
+            } else {
+                crate::checks::history::encode_history::<V5>(&ctx, p)
+            }
+        }
         "oversize" => values::c02_oversize_pub(&ctx),
         "conversion" => faults::c14_conversions_pub(&ctx),
         "protocol-new" => faults::c13_protocol_new(&ctx, &unhex(case["name"].as_str().unwrap()), case["level"].as_u64().unwrap() as u8),
